@@ -11,7 +11,7 @@
 import PsutilModel.Model.C03
 namespace Psutil.C03.Spec
 
-/-- a well-formed value, or one of the three psutil errors carrying the object's pid -/
+/-- a value (ANY value: the clause "well-formed" is `OKV` below), or one of the three psutil errors carrying the object's pid -/
 def OK (pid : Nat) : Except PyExc α → Prop
   | .ok _ => True
   | .error (.nsp p) => p = pid
@@ -21,6 +21,54 @@ def OK (pid : Nat) : Except PyExc α → Prop
 
 instance (pid : Nat) (o : Except PyExc α) : Decidable (OK pid o) := by
   unfold OK; split <;> infer_instance
+
+/-! ### "returns a WELL-FORMED value" — the documented result of each query (docs/index.rst, Linux)
+
+    `Val` is the shape of a returned object; `Val.exc e` = an exception INSTANCE handed back as the return value,
+    `Val.other` = an object of any other type. Neither is the documented result of any query, whatever the name. -/
+
+/-- the documented result shape of the query `nm` (anything else, and any unknown name: not well-formed) -/
+def WellFormedB (nm : String) (v : Val) : Bool :=
+  match v with
+  | .exc _ => false          -- never: a call reports an error by RAISING it
+  | .other => false
+  | .int => ["pid", "ppid", "nice", "num_fds", "cpu_num", "num_threads"].contains nm
+  | .float => ["create_time", "cpu_percent", "memory_percent"].contains nm
+  | .str => ["name", "exe", "status", "username", "cwd", "terminal"].contains nm
+  | .estr => ["name", "exe", "cwd"].contains nm        -- "May also be an empty string"
+  | .none => ["terminal", "parent"].contains nm         -- "… or None"
+  | .bool _ => nm == "is_running"
+  | .dict => nm == "environ"
+  | .tuple n =>
+      (nm == "uids" && n == 3) || (nm == "gids" && n == 3) || (nm == "io_counters" && n == 6) ||
+      (nm == "ionice" && n == 2) || (nm == "num_ctx_switches" && n == 2) || (nm == "cpu_times" && n == 5) ||
+      (nm == "memory_info" && n == 7) || (nm == "memory_full_info" && n == 10) || (nm == "rlimit" && n == 2)
+  | .list _ => ["cmdline", "cpu_affinity", "threads", "memory_maps", "memory_maps_flat", "open_files", "net_connections",
+                "connections"].contains nm
+  | .proc _ => nm == "parent"
+  | .procs _ => ["children", "children_recursive", "parents"].contains nm
+  -- as_dict / process_iter: every stored value is the getter's value or ad_value; none may be an exception object
+  | .asdict _ _ bad => ["as_dict", "as_dict_all"].contains nm && bad.isEmpty
+  | .iter l => nm == "process_iter" && l.all (fun x => x.2.2.2.isEmpty)
+
+def WellFormed (nm : String) (v : Val) : Prop := WellFormedB nm v = true
+
+instance (nm : String) (v : Val) : Decidable (WellFormed nm v) := by unfold WellFormed; infer_instance
+
+/-- the property for the call `nm` with the VALUE clause: a well-formed value of `nm`, or one of the three psutil
+    errors carrying the object's pid -/
+def OKV (pid : Nat) (nm : String) : Except PyExc Val → Prop
+  | .ok v => WellFormed nm v
+  | .error (.nsp p) => p = pid
+  | .error (.zombie p) => p = pid
+  | .error (.ad p) => p = pid
+  | .error _ => False
+
+instance (pid : Nat) (nm : String) (o : Except PyExc Val) : Decidable (OKV pid nm o) := by
+  unfold OKV; split <;> infer_instance
+
+theorem OKV_OK {pid : Nat} {nm : String} {o : Except PyExc Val} (h : OKV pid nm o) : OK pid o := by
+  unfold OKV at h; unfold OK; split <;> simp_all
 
 /-- weaker than `OK`: a well-formed value, or one of the three psutil errors carrying SOME pid (what
     the walk methods guarantee when they query other processes on the way — see `C03_safe_parents_partial`) -/
@@ -110,6 +158,17 @@ def vanishAt (k : Nat) : Nat → WS := fun i => if i < k then .alive else .gone
 def zombieFrom (k : Nat) : Nat → WS := fun i => if i < k then .alive else .zombie
 def alwaysAlive : Nat → WS := fun _ => .alive
 def denyAt (i : Nat) (e : Errno) : Nat → Option Errno := fun k => if k = i then some e else none
+
+/-- the whole life cycle inside one call: alive before access `j`, a zombie from `j`, gone from `l` on (`j ≤ l`;
+    `j = l`: vanishes without being seen as a zombie) -/
+def transition (j l : Nat) : Nat → WS := fun i => if i < j then .alive else if i < l then .zombie else .gone
+
+/-- **refusal × life cycle**: ONE access refused (anywhere: before, between or after the transitions) while the process
+    goes alive → zombie → gone at later accesses of the same call — the plans that reach the nested fallbacks of the
+    front end (a refusal makes the method try another source, which then meets a zombie / a process that is gone) -/
+inductive TransitionPlan : (Nat → WS) → (Nat → Option Errno) → Prop
+  | mk (i j l : Nat) (e : Errno) (h : e = .EACCES ∨ e = .EPERM) (hjl : j ≤ l) : TransitionPlan (transition j l) (denyAt i e)
+  | denyZombie (i k : Nat) (e : Errno) (h : e = .EACCES ∨ e = .EPERM) : TransitionPlan (zombieFrom k) (denyAt i e)
 
 /-- the four plan shapes named by the property -/
 inductive PropertyPlan : (Nat → WS) → (Nat → Option Errno) → Prop
